@@ -5,6 +5,7 @@ import (
 	"os"
 	"sort"
 	"strings"
+	"syscall"
 
 	"github.com/itchio/lake/tlc"
 
@@ -18,6 +19,23 @@ type C02Case struct {
 	Clash     string `json:"clash,omitempty"`
 	Optimized bool   `json:"optimized"`
 	Repeats   int    `json:"repeats"`
+}
+
+// otherFsDir returns a fresh directory on a filesystem other than ref's (WV_OTHER_FS, /dev/shm), or "".
+func otherFsDir(ref string) string {
+	var a, b syscall.Stat_t
+	if syscall.Stat(ref, &a) != nil {
+		return ""
+	}
+	for _, cand := range []string{os.Getenv("WV_OTHER_FS"), "/dev/shm"} {
+		if cand == "" || syscall.Stat(cand, &b) != nil || a.Dev == b.Dev {
+			continue
+		}
+		if d, err := os.MkdirTemp(cand, "wv-stage-"); err == nil {
+			return d
+		}
+	}
+	return ""
 }
 
 // clashPair builds the path-kind-change shapes.
@@ -107,6 +125,15 @@ func c02One(env *Env, m *wvlib.Model, c *C02Case) {
 	for rep := 0; rep < reps; rep++ {
 		work := fmt.Sprintf("%s/work%d", base, rep)
 		stage := fmt.Sprintf("%s/stage%d", base, rep)
+		if rep == reps-1 && reps >= 2 {
+			// configuration: the stage folder on another filesystem (renames into the build fail with EXDEV and the
+			// bowl falls back to copying)
+			if d := otherFsDir(base); d != "" {
+				stage = d + "/stage"
+				defer os.RemoveAll(d)
+				env.R.Count("stage-on-another-filesystem", 1)
+			}
+		}
 		if err := old.Write(work); err != nil {
 			panic(err)
 		}
